@@ -69,7 +69,8 @@ func genC18(rt *rapid.T) c18Scn {
 		case "settle":
 			op.Ms = rapid.SampledFrom([]int{1, 30, 250, 1200}).Draw(rt, "ms")
 		case "wdl":
-			op.Ms = rapid.SampledFrom([]int{1, 100, 1500}).Draw(rt, "ms")
+			// also deadlines that are already over when the call is made (negative / zero)
+			op.Ms = rapid.SampledFrom([]int{1, 100, 1500, 1, 100, -50, 0}).Draw(rt, "ms")
 			op.Size = rapid.IntRange(1, 1000).Draw(rt, "size")
 		}
 		sc.Ops = append(sc.Ops, op)
@@ -288,7 +289,10 @@ func runC18(t *testing.T, x c18Scn, verbose bool) (c vfCase) {
 					done := false
 					t0 := s.net.now()
 					go func() { n, err, b = write(hw.s, min(op.Size, mm)); done = true }()
-					s.o.run(func() bool { return done }, time.Now().Add(time.Duration(op.Ms)*time.Millisecond+time.Second))
+					s.o.run(func() bool { return done }, time.Now().Add(time.Duration(max(op.Ms, 0))*time.Millisecond+time.Second))
+					if op.Ms <= 0 {
+						c.class("write-deadline-already-over")
+					}
 					_ = hw.s.SetWriteDeadline(time.Time{})
 					if !done {
 						c.fail("write-deadline-ignored", "%s: blocking write did not return by its deadline (+1 s)", what)
